@@ -348,8 +348,8 @@ def parseDigits (cs : List Char) : Option Nat :=
 /-- decimal literal `[-]ddd[.ddd]`, or `[-]1e+30` -/
 def parseDec (w : String) : Option Rat :=
   if w = "1e+30" then some realMax else if w = "-1e+30" then some (-realMax) else
-  let cs := w.toList
-  let (neg, cs) := match cs with | '-' :: r => (true, r) | r => (false, r)
+  let neg : Bool := w.toList.head? = some '-'
+  let cs := if neg then w.toList.drop 1 else w.toList
   let ip := cs.takeWhile (· ≠ '.')
   let fp := (cs.dropWhile (· ≠ '.')).drop 1
   match parseDigits ip, (if cs.contains '.' then parseDigits fp else some 0) with
@@ -358,8 +358,25 @@ def parseDec (w : String) : Option Rat :=
     some (if neg then -q else q)
   | _, _ => none
 
+/-- the words with a meaning of their own in the writer's grammar -/
+inductive WClass where
+  | minimize | obj | subject | to | bounds | binary | general | end_
+  | plus | minus | lbr | rbrHalf | rbr | star | le | ge | eq | other
+deriving DecidableEq
+
+def wordTable : List (String × WClass) :=
+  [("Minimize", .minimize), ("obj:", .obj), ("Subject", .subject), ("To", .to), ("Bounds", .bounds), ("Binary", .binary),
+   ("General", .general), ("End", .end_), ("+", .plus), ("-", .minus), ("[", .lbr), ("]/2", .rbrHalf), ("]", .rbr),
+   ("*", .star), ("<=", .le), (">=", .ge), ("=", .eq)]
+
+def classify (w : String) : WClass := ((wordTable.find? (fun p => p.1 = w)).map (·.2)).getD .other
+
+inductive LMode where
+  | start | objective | constraints | bnds | bin | gen | done | bad
+deriving DecidableEq
+
 structure LState where
-  mode : Nat := 0              -- 0 start, 1 objective, 2 constraints, 3 bounds, 4 binary, 5 general, 6 done, 99 bad
+  mode : LMode := .start
   out : List Tok := []
   subj : Bool := false
   neg : Option Bool := none
@@ -381,54 +398,81 @@ def LState.flush (st : LState) : LState :=
 
 def signed (st : LState) : Rat := let q := st.num.getD 0; if st.neg.getD false then -q else q
 
+def lastIsColon (w : String) : Bool := w.toList.getLast? = some ':'
+
+/-- a word that is not a symbol, inside an objective or constraint expression -/
+def exprWord (st : LState) (w : String) : LState :=
+  match st.cmpS with
+  | some sn => match parseDec w with
+    | some q => { st.emit [Tok.cmp sn q] with cmpS := none }
+    | none => { st with mode := .bad }
+  | none =>
+    if st.neg.isSome ∧ st.num.isNone then
+      match parseDec w with | some q => { st with num := some q } | none => { st with mode := .bad }
+    else if st.neg.isSome ∧ st.num.isSome then
+      if st.inQ then
+        match st.qu with
+        | none => { st with qu := some (.str w) }
+        | some u => { st.emit [Tok.qterm (signed st) u (.str w)] with qu := none, neg := none, num := none }
+      else { st.emit [Tok.lin (signed st) (.str w)] with neg := none, num := none }
+    else if st.mode = .constraints ∧ lastIsColon w then st.emit [Tok.clabel (.str (String.ofList (w.toList.dropLast)))]
+    else { st with mode := .bad }
+
+/-- one word inside an objective (`.objective`) or the constraints (`.constraints`) -/
+def exprStep (st : LState) (w : String) : LState :=
+  match classify w with
+  | .plus => { st.flush with neg := some false }
+  | .minus => { st.flush with neg := some true }
+  | .lbr => { st.emit [Tok.qopen] with inQ := true, neg := none, num := none }
+  | .rbrHalf => { st.emit [Tok.qcloseHalf] with inQ := false }
+  | .rbr => { st.emit [Tok.qclose] with inQ := false }
+  | .star => st
+  | .le => if st.mode = .constraints then { st with cmpS := some .le } else exprWord st w
+  | .ge => if st.mode = .constraints then { st with cmpS := some .ge } else exprWord st w
+  | .eq => if st.mode = .constraints then { st with cmpS := some .eq } else exprWord st w
+  | _ => exprWord st w
+
+/-- the bounds section: `lb <= name <= ub` -/
+def boundStep (st : LState) (w : String) : LState :=
+  match st.bstage with
+  | 0 => match parseDec w with | some q => { st with b1 := q, bstage := 1 } | none => { st with mode := .bad }
+  | 1 => if w = "<=" then { st with bstage := 2 } else { st with mode := .bad }
+  | 2 => { st with bn := .str w, bstage := 3 }
+  | 3 => if w = "<=" then { st with bstage := 4 } else { st with mode := .bad }
+  | _ => match parseDec w with
+    | some q => { st.emit [Tok.bound st.b1 st.bn q] with bstage := 0, b1 := 0, bn := .str "" }
+    | none => { st with mode := .bad }
+
 def lstep (st : LState) (w : String) : LState :=
-  if st.mode = 99 ∨ st.mode = 6 then { st with mode := 99 } else
-  if st.mode = 0 ∧ w = "Minimize" then (st.emit [Tok.minimize])
-  else if st.mode = 0 ∧ w = "obj:" then { st.emit [Tok.objLabel] with mode := 1 }
-  else if w = "Subject" ∧ st.mode ≤ 1 then { st.flush with subj := true }
-  else if w = "To" ∧ st.subj then { st.emit [Tok.blank2, Tok.subjectTo] with subj := false, mode := 2 }
-  else if w = "Bounds" ∧ st.mode = 2 then { st.emit [Tok.nl, Tok.bounds] with mode := 3 }
-  else if w = "Binary" ∧ st.mode = 3 ∧ st.bstage = 0 then { st.emit [Tok.nl, Tok.section false] with mode := 4 }
-  else if w = "General" ∧ st.mode = 4 then { st.emit [Tok.nl, Tok.section true] with mode := 5 }
-  else if w = "End" ∧ st.mode = 5 then { st.emit [Tok.nl, Tok.end_] with mode := 6 }
-  else if st.mode = 4 ∨ st.mode = 5 then st.emit [Tok.name (.str w)]
-  else if st.mode = 3 then
-    match st.bstage with
-    | 0 => match parseDec w with | some q => { st with b1 := q, bstage := 1 } | none => { st with mode := 99 }
-    | 1 => if w = "<=" then { st with bstage := 2 } else { st with mode := 99 }
-    | 2 => { st with bn := .str w, bstage := 3 }
-    | 3 => if w = "<=" then { st with bstage := 4 } else { st with mode := 99 }
-    | _ => match parseDec w with
-      | some q => { st.emit [Tok.bound st.b1 st.bn q] with bstage := 0 }
-      | none => { st with mode := 99 }
-  else if st.mode = 1 ∨ st.mode = 2 then
-    if w = "+" ∨ w = "-" then { st.flush with neg := some (w = "-") }
-    else if w = "[" then { st.emit [Tok.qopen] with inQ := true, neg := none, num := none }
-    else if w = "]/2" then { st.emit [Tok.qcloseHalf] with inQ := false }
-    else if w = "]" then { st.emit [Tok.qclose] with inQ := false }
-    else if w = "*" then st
-    else if st.mode = 2 ∧ (w = "<=" ∨ w = ">=" ∨ w = "=") then
-      { st with cmpS := some (if w = "<=" then .le else if w = ">=" then .ge else .eq) }
-    else match st.cmpS, parseDec w with
-      | some sn, some q => { st.emit [Tok.cmp sn q] with cmpS := none }
-      | some _, none => { st with mode := 99 }
-      | none, pd =>
-        if st.neg.isSome ∧ st.num.isNone then
-          match pd with | some q => { st with num := some q } | none => { st with mode := 99 }
-        else if st.neg.isSome ∧ st.num.isSome then
-          if st.inQ then
-            match st.qu with
-            | none => { st with qu := some (.str w) }
-            | some u => { st.emit [Tok.qterm (signed st) u (.str w)] with qu := none, neg := none, num := none }
-          else { st.emit [Tok.lin (signed st) (.str w)] with neg := none, num := none }
-        else if st.mode = 2 ∧ w.endsWith ":" then st.emit [Tok.clabel (.str (String.ofList (w.toList.dropLast)))]
-        else { st with mode := 99 }
-  else { st with mode := 99 }
+  match st.mode with
+  | .done => { st with mode := .bad }
+  | .bad => st
+  | .start =>
+    match classify w with
+    | .minimize => st.emit [Tok.minimize]
+    | .obj => { st.emit [Tok.objLabel] with mode := .objective }
+    | .subject => { st.flush with subj := true }
+    | .to => if st.subj then { st.emit [Tok.blank2, Tok.subjectTo] with subj := false, mode := .constraints } else { st with mode := .bad }
+    | _ => { st with mode := .bad }
+  | .objective =>
+    match classify w with
+    | .subject => { st.flush with subj := true }
+    | .to => if st.subj then { st.emit [Tok.blank2, Tok.subjectTo] with subj := false, mode := .constraints } else exprStep st w
+    | _ => exprStep st w
+  | .constraints =>
+    match classify w with
+    | .bounds => { st.emit [Tok.nl, Tok.bounds] with mode := .bnds }
+    | _ => exprStep st w
+  | .bnds =>
+    if classify w = .binary ∧ st.bstage = 0 then { st.emit [Tok.nl, Tok.section false] with mode := .bin }
+    else boundStep st w
+  | .bin => if classify w = .general then { st.emit [Tok.nl, Tok.section true] with mode := .gen } else st.emit [Tok.name (.str w)]
+  | .gen => if classify w = .end_ then { st.emit [Tok.nl, Tok.end_] with mode := .done } else st.emit [Tok.name (.str w)]
 
 /-- text → tokens -/
 def lex (s : String) : Option (List Tok) :=
   let st := (words s).foldl lstep {}
-  if st.mode = 6 then some st.out else none
+  if st.mode = .done then some st.out else none
 
 /-- `lp.loads` at specification level -/
 def loads (s : String) : Option LCqm := (lex s).bind readToks
